@@ -503,7 +503,19 @@ class Machine:
             hk = self.hooks.get("stmt")
             if hk:
                 hk(self, st, env, fi)
-            if isinstance(st, ast.Return):
+            if isinstance(st, ast.Match):
+                from .loader import lower_match
+
+                low = getattr(st, "_qsa_lowered", False)
+                if low is False:
+                    low = lower_match(st)
+                    st._qsa_lowered = low
+                if low is None:
+                    raise SimUnsupported(f"{fi.qualname}: `match` with patterns outside the modelled kinds")
+                self.block(low, env, fi)
+            elif isinstance(st, ast.Assert):
+                pass  # assertions state invariants; the abstract run proceeds as if they hold
+            elif isinstance(st, ast.Return):
                 raise _Return(self.ev(st.value, env, fi) if st.value is not None else NONE)
             elif isinstance(st, ast.If):
                 c = self.cond(st.test, env, fi)
